@@ -96,6 +96,44 @@ def run(ctx):
                     res.violations.append({"kind": "inclusion proof does not contain the entry at its position (list with a repeated id)",
                                            "n": n, "i": i, "list": [x.hex() for x in l],
                                            "leaves": ["%d:%s" % (ix, v.hex()[:8]) for ix, v in lv]})
+    # ids with a special byte pattern (all zero — the value the protocol uses as the "thin air" reference —, all ones, a single
+    # bit at either end) at every position of short lists: commitment, tree, every proof, and every structural edit
+    SPECIAL = [b"\x00" * 32, b"\xff" * 32, b"\x00" * 31 + b"\x01", b"\x80" + b"\x00" * 31, b"\x01" + b"\x00" * 31]
+    for n in range(1, ctx.scale(7, 10)):
+        for pos in range(n):
+            sp = SPECIAL[(n + pos) % len(SPECIAL)] if (n + pos) % 2 else SPECIAL[0]
+            l = [gens.rb(rng, 32) for _ in range(n)]
+            l[pos] = sp
+            if n >= 3 and pos == n - 1 and n % 2 == 1:
+                l[0] = sp                                   # … and the same special id twice
+            root = get_merkle_root(list(l))
+            ops.append("mroot " + " ".join(x.hex() for x in l))
+            impl.append(root.hex())
+            tree = get_merkle_tree(list(l))
+            if tree.hash() != root:
+                res.violations.append({"kind": "tree hash differs from the commitment (list containing a special-pattern id)",
+                                       "list": [x.hex() for x in l]})
+            for i in range(n):
+                p = get_proof(tree, i)
+                lv = leaves_of(p)
+                ops.append("mproof %d " % i + " ".join(x.hex() for x in l))
+                impl.append(p.hash().hex() + " " + ",".join("%d:%s" % (ix, v.hex()) for ix, v in lv))
+                res.case(("proof-special", tuple(l), i), nontrivial=True)
+                res.count("proofs_in_lists_with_special_ids")
+                if p.hash() != root or (i, l[i]) not in lv:
+                    res.violations.append({"kind": "inclusion proof does not reproduce the commitment / contain its entry (list "
+                                                   "containing a special-pattern id)", "n": n, "i": i, "list": [x.hex() for x in l]})
+            for kind, m in edits(l, SPECIAL[(pos + 1) % len(SPECIAL)] if pos % 2 else gens.rb(rng, 32)):
+                if not m:
+                    continue
+                r2 = get_merkle_root(list(m))
+                ops.append("mroot " + " ".join(x.hex() for x in m))
+                impl.append(r2.hex())
+                res.case(("edit-special", tuple(m)))
+                res.count("edit_special:" + kind)
+                if m != l and r2 == root:
+                    res.violations.append({"kind": "commitment unchanged by '%s' (list containing a special-pattern id)" % kind,
+                                           "list": [x.hex() for x in l], "edited": [x.hex() for x in m]})
     # structural edits
     seen_roots = {}
     for n in range(1, ctx.scale(7, 9) + 1):
